@@ -51,6 +51,8 @@ def run(chk):
              "function uses a visited mark against cyclic data, every recursive call lies after the mark on every path")
     chk.rule("DEST.sized", "every standard algorithm call that writes through an output iterator appends (back_inserter) or writes to begin() of a "
              "local container constructed with the source range's own size()")
+    chk.rule("GUARD", "BuildPath64/D reject a null ring before dereferencing it (the callers' null test precedes CleanCollinear, which can dispose of the whole ring); "
+             "entry guard and final filter tables")
     chk.rule("ALLOC.owned", "every `new` kept in a local pointer is handed on (returned, stored, passed to a call - for an array the pointer itself - or deleted) or "
              "known null on every path from the allocation to an exit of the function: no exit leaves the block owned by nobody")
     chk.rule("GUARD.unsigned-decrement", "every loop that counts an unsigned index down tests it strictly (v > e) or against a literal >= 1: it cannot step below "
@@ -68,6 +70,8 @@ def run(chk):
         e9.rule_recursion(db, chk, cfg)
         e9.rule_dest_sized(db, chk, cfg)
         e9.rule_unsigned_decrement(db, chk, cfg)
+        from ..engines import e10_pipeline as _e10g
+        _e10g.rule_guard(db, chk, cfg)           # BuildPath64/D test `op` for null before dereferencing it (CleanCollinear may have disposed of the ring)
         if e9.rule_alloc_owned(db, chk, cfg) < 8:
             raise AnalysisBroken("ALLOC.owned: fewer than 8 allocations into local pointers found (configuration %s)" % cfg)
         e10.rule_iter_stable(db, chk, cfg, lambda cls: e2.E2(db, chk, cfg, cls))
